@@ -109,6 +109,8 @@ def make_sim(cfg, rnd=None, style="mixed"):
         sim = models.et_sim(serial=serial_for(cfg["tag"]), rated=cfg["rated"], refused_blocks=cfg["refused"],
                             battery_mode=cfg["battery"], rnd=rnd, style=style)
         apply_firmware(sim, fam, cfg.get("fw_versions"))
+        for reg_, cnt_ in cfg.get("refuse_exact", ()):      # firmware that refuses exactly this (longer) read but serves shorter ones there
+            sim.exc_map[(3, reg_, cnt_)] = 2
         return sim
     if fam == "DT":
         sim = models.dt_sim(serial=serial_for(cfg["tag"]), refused_blocks=cfg["refused"], rnd=rnd, style=style)
